@@ -4,7 +4,8 @@ From Coq Require Import String.
 From Coq Require Import Sorted Permutation.
 From PG Require Import Lib.Str Model.TALES Proofs.TALESFacts Model.TALProg Model.TALProgSpec Proofs.TALProgFacts
                        Model.TALCompile Proofs.TALCompileFacts Model.TALESEval Proofs.TALESEvalFacts
-                       Model.TALVM Model.TALOut Proofs.TALOutFacts Proofs.TALCompileWf Proofs.TALVMTerm.
+                       Model.TALVM Model.TALOut Proofs.TALOutFacts Proofs.TALCompileWf Proofs.TALVMTerm
+                       Model.TALSpec Proofs.TALSpecFacts.
 Local Open Scope N_scope.
 
 (* ---- compiled programs are structurally well formed ----
@@ -219,3 +220,30 @@ Theorem C17_compiler_correct_partial :
     exists mf, expand_static p t m 2 c = Done mf /\ dat str mf = passthrough_text v es /\ cx str mf = c.
 Proof. exact TALOutFacts.passthrough_expand. Qed.
 Print Assumptions C17_compiler_correct_partial.
+
+(* ---- beyond the TAL-free fragment, stage 1: condition, content | replace, attributes, omit-tag ----
+   Model/TALSpec.v gives (1) the data side of the interpreter (output file, outputTag, original and
+   current attributes, tagContent, their save/restore) as an instance of the abstract VM and (2) a
+   tree-walking specification: an element is a tree node, its statements are applied in TAL's
+   priority order to a record (rendered?, tags shown?, content, attributes), then the node is
+   written — no program counter, no jumps, no scope stack.  For EVERY program that reads back as a
+   forest f (parse_forest: balanced, statements in priority order, symbols pointing at the owning end
+   tag — what C17_wf_program guarantees for compiled programs), every evaluator of expressions and
+   every context: the expansion terminates, has written exactly spec_forest f, and has restored the
+   data stack, the scopes and the scope stack.  This is the statement "the jump / flag machinery of the
+   interpreter implements the order of operations".
+   Still missing for the full C17_compiler_correct: tal:define and tal:repeat (the evaluator then
+   depends on a changing context), METAL, and the proof that parse_forest (compile (events t)) is the
+   tree t itself (today: chk_compile + chk_spec compare with the real compiler and the real expansion
+   on every run, and the differential oracle covers all statements). *)
+Theorem C17_expand_spec_partial :
+  forall (val : Type) (eval : str -> list (str * str) -> val) (v_nothing v_default v_truth : val -> bool)
+         (v_text : val -> str) (p : program) (t : symtab) (f : list tnode),
+    parse_forest (S (List.length p)) t 0 p = Some (f, []) ->
+    forall c, exists fuel mf,
+      expand1 val eval v_nothing v_default v_truth v_text p t fuel c = Done mf /\
+      d_out (dat (dstate val) mf) = spec_forest val eval v_nothing v_default v_truth v_text f /\
+      d_stack (dat (dstate val) mf) = [] /\
+      c_sc (cx (dstate val) mf) = c_sc c /\ sstack (dstate val) mf = [] /\ pc (dstate val) mf = List.length p.
+Proof. exact TALSpecFacts.expand_spec_parsed. Qed.
+Print Assumptions C17_expand_spec_partial.
